@@ -10,11 +10,12 @@ What is proved here about the model (and tied to the code by the correspondence 
   enumerated candidates), bfs_fuel_suffices (termination on every graph), enumerated_iff_reachable,
   flatten_sound, flatten_complete (search = declarative all-paths rule, for error-free runs under NoDupEmbed),
   ids_depth_monotone, dup_embed_counterexample (NoDupEmbed is necessary), lookup_exact_first, lookup_spec,
-  fold_ascii, match_spec, zero_spec, omitZeroStructFields_equiv, omit_spec, unknown_spec.
+  fold_ascii, fold_normal_form, fold_idem_ascii, fold_ignores_delims_and_case, equalFold_equiv, match_spec, zero_spec, omitZeroStructFields_equiv, omit_spec, unknown_spec.
 fallback_spec and ids_depth_monotone (every run) are proved as well; no full statement of this file is left open.
 -/
 import JsonV.Lemmas.FieldsFinish
 import JsonV.Lemmas.FieldsFold
+import JsonV.Lemmas.FieldsFoldIdem
 import JsonV.Lemmas.FieldsLookup
 import JsonV.Lemmas.FieldsEscape
 import JsonV.Lemmas.FieldsOcc
@@ -382,6 +383,62 @@ example : IsAscii [0x61, 0x5F, 0x42] ∧ IsAscii [0x41, 0x2D, 0x62] ∧ normAsci
   · intro c hc
     simp only [List.mem_cons, List.not_mem_nil, or_false] at hc
     rcases hc with rfl | rfl | rfl <;> decide
+
+/-- The folded form of an ASCII name is a normal form: ASCII only, no `_`/`-`, no lower-case letter — so the keys of
+`byFoldedName` (fields.go) never contain a delimiter or a lower-case ASCII letter. -/
+theorem fold_normal_form (foldRune : Nat → Nat) (x : Bytes) (hx : IsAscii x) :
+    ∀ c ∈ Fold.foldName foldRune x,
+      c.toNat < 0x80 ∧ Fold.isDelim c = false ∧ ¬ (0x61 ≤ c.toNat ∧ c.toNat ≤ 0x7A) :=
+  foldName_ascii_shape foldRune x hx
+
+/-- Folding is idempotent on ASCII names: looking up an already folded name finds the same `byFoldedName` bucket. -/
+theorem fold_idem_ascii (foldRune : Nat → Nat) (x : Bytes) (hx : IsAscii x) :
+    Fold.foldName foldRune (Fold.foldName foldRune x) = Fold.foldName foldRune x :=
+  foldName_idem_ascii foldRune x hx
+
+example : IsAscii [0x61, 0x5F, 0x42] ∧ Fold.foldName id [0x61, 0x5F, 0x42] = [0x41, 0x42] := by
+  refine ⟨?_, by simp [Fold.foldName, Fold.isDelim, Fold.upperAscii, Utf8.runeSelf]⟩
+  intro c hc
+  simp only [List.mem_cons, List.not_mem_nil, or_false] at hc
+  rcases hc with rfl | rfl | rfl <;> decide
+
+/-- "Ignoring '_' and '-'" and "ignoring case", literally: inserting a delimiter anywhere, or changing the ASCII case
+of any byte, does not change the folded form (whatever `unicode.SimpleFold` does on the non-ASCII remainder is
+irrelevant because both sides are ASCII). -/
+theorem fold_ignores_delims_and_case (foldRune : Nat → Nat) (x y : Bytes) (d c : UInt8)
+    (hx : IsAscii x) (hy : IsAscii y) (hd : Fold.isDelim d = true) (hc : c.toNat < 0x80) :
+    Fold.foldName foldRune (x ++ d :: y) = Fold.foldName foldRune (x ++ y) ∧
+    Fold.foldName foldRune (x ++ Fold.upperAscii c :: y) = Fold.foldName foldRune (x ++ c :: y) := by
+  have hdA : d.toNat < 0x80 := by
+    unfold Fold.isDelim at hd
+    simp only [Bool.or_eq_true, beq_iff_eq] at hd
+    omega
+  have hA : ∀ (m : List UInt8), IsAscii m → IsAscii (x ++ m) := by
+    intro m hm b hb
+    rcases List.mem_append.mp hb with h | h
+    · exact hx b h
+    · exact hm b h
+  have hcons : ∀ (b : UInt8), b.toNat < 0x80 → IsAscii (b :: y) := by
+    intro b hb a ha
+    rcases List.mem_cons.mp ha with rfl | h
+    · exact hb
+    · exact hy a h
+  constructor
+  · rw [foldName_ascii foldRune _ (hA _ (hcons d hdA)), foldName_ascii foldRune _ (hA _ hy)]
+    simp [List.filter_append, hd]
+  · rw [foldName_ascii foldRune _ (hA _ (hcons _ (upperAscii_lt c hc))), foldName_ascii foldRune _ (hA _ (hcons c hc))]
+    simp [List.filter_append, List.filter_cons, isDelim_upperAscii]
+    cases hdc : Fold.isDelim c <;> simp [upperAscii_idem]
+
+example : Fold.isDelim 0x2D = true ∧ (0x7A : UInt8).toNat < 0x80 := by decide
+
+/-- `strings.EqualFold` as modelled (rune-wise equality under `foldRune`) is an equivalence relation, so the
+`MatchCaseSensitiveDelimiter` filter of `matchFoldedName` partitions the candidates. -/
+theorem equalFold_equiv (foldRune : Nat → Nat) :
+    (∀ s, Fold.equalFold foldRune s s = true) ∧
+    (∀ s t, Fold.equalFold foldRune s t = Fold.equalFold foldRune t s) ∧
+    (∀ s t u, Fold.equalFold foldRune s t = true → Fold.equalFold foldRune t u = true → Fold.equalFold foldRune s u = true) :=
+  ⟨equalFold_refl foldRune, equalFold_symm foldRune, equalFold_trans foldRune⟩
 
 /-- Case-insensitive matching is requested per field (`case:ignore`) or per call (`MatchCaseInsensitiveNames`,
 unless the field says `case:strict`); `MatchCaseSensitiveDelimiter` additionally demands `strings.EqualFold`. -/
